@@ -92,6 +92,22 @@ def one_program(ctx, prog, script, rng):
         if varlike(n) and n not in {node_name(e.lhs) for e in eqs} and 'equation' in G.nodes[n]:
             ctx.violation('graph-node-equation', f'right-hand-side-only node {n} carries an equation attribute', case)
             return
+    # ---- every call yields the graph of its argument: changing a returned graph does not reach later calls --------
+    all_nodes, all_edges = {repr(n): dict(G.nodes[n]) for n in G.nodes}, {(repr(a), repr(b)) for a, b in G.edges}
+    G.remove_nodes_from([n for n in list(G.nodes) if varlike(n)][::2])
+    G.add_edge('Zz[t]', 'Qq[t]')
+    try:
+        G2 = tools.symbols_to_graph(fsic.parse_model(script))
+        G3 = tools.symbols_to_graph(symbols)
+    except Exception as e:
+        ctx.violation('graph-raises', f'second symbols_to_graph call raised {type(e).__name__}: {e}', case)
+        return
+    ctx.count('repeat_calls_compared')
+    for H in (G2, G3):
+        if H is G or {repr(n): dict(H.nodes[n]) for n in H.nodes} != all_nodes or {(repr(a), repr(b)) for a, b in H.edges} != all_edges:
+            ctx.violation('graph-carries-state-across-calls', f'after the first returned graph was modified by its caller, symbols_to_graph on the same symbols returns '
+                          f'{"the same object" if H is G else "a different graph"}: nodes {sorted(map(repr, H.nodes))[:8]}', case)
+            return
     # ---- dynamic confirmation --------------------------------------------------------------------
     if 'named' in ex.features:
         return
